@@ -32,7 +32,7 @@ ASSUMPTIONS = ["operations are applied with admissible arguments only (inadmissi
 NSHARDS = 16
 
 ALPHABET = [
-    ("append_one_sample", (False,)), ("append_one_sample", (True,)),
+    ("append_one_sample", ()), ("append_one_sample", (True,)),      # () = documented default (not periodic)
     ("shift_x", (2.5,)), ("shift_x", (-7,)),
     ("shift_y", (1.25,)), ("shift_y", (-3,)),
     ("scale_x", (3.0,)), ("scale_x", (0.1,)),
@@ -183,7 +183,7 @@ RESHAPE = ["recreate", "match", "interpolate", "smooth", "trend", "noise"]
 def random_domain_args(rng, op, x, y):
     n = len(x)
     if op == "append_one_sample":
-        return (bool(rng.integers(0, 2)),)
+        return () if rng.integers(0, 3) == 0 else (bool(rng.integers(0, 2)),)
     if op in ("shift_x", "shift_y"):
         return (float(rng.choice([1.0, -2.5, float(rng.normal(0, 10)), 3])) if rng.integers(0, 4) else int(rng.integers(-5, 6)),)
     if op == "scale_x":
